@@ -58,7 +58,7 @@
 EXTENDS Integers, Sequences, FiniteSets, TLC
 
 CONSTANTS McDepth,     \* depth of the exhaustive tree set walked by the state machine
-          McLeafMode   \* "small" | "full": leaf alphabet of that set
+          McLeafMode   \* "small" | "full": alphabet of that set;  "chain": trees by operator count (see Init)
 
 Scale == 64
 MaxMag == 512 * Scale
@@ -555,9 +555,15 @@ vars == <<tree, wfk, sortB, wps, wsp, fval, phase, text, parsed, res>>
 McCfg == IF McLeafMode = "full" THEN FullCfg ELSE SmallCfg
 NoVal == FV("int", 0, "", FALSE)
 
-Init == /\ \E k \in Sorts : /\ wfk = k
-                            /\ \/ tree \in BT(k, McDepth, McCfg) /\ sortB = TRUE
-                               \/ tree \in NT(k, McDepth - 1, McCfg) \cup ST(k, McDepth - 1, McCfg) /\ sortB = FALSE
+\* McLeafMode = "chain": every boolean-sorted tree with <= McDepth binary operators over ALL 13 operators
+ChainCfg == [num |-> {2 * Scale}, str |-> {"a"}, bool |-> {TRUE}, arith |-> MulOps \cup AddOps, rel |-> RelOps,
+             eq |-> EqOps, logic |-> {"&&", "||"}, funcs |-> FALSE, pat |-> {"^a"}]
+Init == /\ \E k \in (IF McLeafMode = "chain" THEN {"num", "bool"} ELSE Sorts) :
+              /\ wfk = k
+              /\ IF McLeafMode = "chain"
+                 THEN tree \in UNION {BZ(k, m, ChainCfg) : m \in 1 .. McDepth} /\ sortB = TRUE
+                 ELSE \/ tree \in BT(k, McDepth, McCfg) /\ sortB = TRUE
+                      \/ tree \in NT(k, McDepth - 1, McCfg) \cup ST(k, McDepth - 1, McCfg) /\ sortB = FALSE
         /\ wps \in ParenStyles /\ wsp \in SpaceStyles
         /\ fval = NoVal /\ phase = "chosen" /\ text = "" /\ parsed = Bad /\ res = Ill
 
